@@ -47,16 +47,32 @@ func newEcmaTime(goTime Time.Time) ecmaTime {
 }
 
 func (t *ecmaTime) goTime() Time.Time {
+	if dateFieldsTooLarge(float64(t.year), float64(t.month), float64(t.day), float64(t.hour), float64(t.minute), float64(t.second), float64(t.millisecond)) {
+		// Any time beyond the range of time values: Set makes the date invalid.
+		return Time.UnixMilli(2 * maxTimeValue)
+	}
 	return Time.Date(
 		t.year,
 		dateToGoMonth(t.month),
 		t.day,
 		t.hour,
 		t.minute,
-		t.second,
-		t.millisecond*(100*100*100),
+		t.second+t.millisecond/1000,
+		t.millisecond%1000*(100*100*100),
 		t.location,
 	)
+}
+
+// dateFieldsTooLarge reports whether one field of a date, by itself, spans more
+// than 1,000,000,000 days, ten times the range of time values (15.9.1.1). Such
+// a date is invalid (unless other fields cancel the excess, which the float
+// arithmetic of 15.9.1.11-13 cannot do exactly either), and the integer
+// arithmetic of time.Date would overflow on it.
+func dateFieldsTooLarge(year, month, day, hour, minute, second, millisecond float64) bool {
+	const days = 1e9
+	return math.Abs(year) > days/400 || math.Abs(month) > days/40 || math.Abs(day) > days ||
+		math.Abs(hour) > days*24 || math.Abs(minute) > days*24*60 ||
+		math.Abs(second) > days*24*60*60 || math.Abs(millisecond) > days*24*60*60*1000
 }
 
 func (d *dateObject) Time() Time.Time {
@@ -208,7 +224,11 @@ func newDateTime(argumentList []Value, location *Time.Location) float64 {
 			year = 1900 + integer
 		}
 
-		time := Time.Date(int(year), dateToGoMonth(int(month)), int(day), int(hour), int(minute), int(second), int(millisecond)*1000*1000, location)
+		if dateFieldsTooLarge(year, month, day, hour, minute, second, millisecond) {
+			return math.NaN()
+		}
+
+		time := Time.Date(int(year), dateToGoMonth(int(month)), int(day), int(hour), int(minute), int(second)+int(millisecond)/1000, int(millisecond)%1000*1000*1000, location)
 		epoch := timeToEpoch(time)
 		if math.Abs(epoch) > maxTimeValue {
 			return math.NaN()
